@@ -2,8 +2,8 @@ package websocket
 
 import (
 	"context"
-	"io"
 	"errors"
+	"io"
 	"net"
 	"time"
 )
